@@ -54,7 +54,7 @@ let find_file num =
 
 let run (toks : string list) : string option =
   match toks with
-  | ["e_init"; c] -> ucmp := (if c = "1" then rev_cmp else bytes_compare); st := init_state; Some "ok"
+  | ["e_init"; c] -> ucmp := (if c = "1" then rev_cmp else if c = "2" then ci_compare else bytes_compare); st := init_state; Some "ok"
   | ["e_write"; ops] -> st := do_write !ucmp !st (wops_arg ops); Some ("ok " ^ hexn !st.last_seq)
   | ["e_switch"] -> Some (set (do_switch !st))
   | ["e_flush"; lvl; num; nf] ->
